@@ -100,6 +100,44 @@ CHECKS['C15'] = dict(
    technique='contract-based deductive verification (loop invariant, ghost write-set frames) + bounded runtime contracts',
    design_ref='DESIGN.md 5 C15')
 
+_REX_NOTE = ('Trusted: Python re semantics. The extraction pipeline (1,500 lines of string processing) is not under deductive '
+             'contracts; the end-to-end sentence is decided only on the enumerated/seeded inputs stated in the evidence.')
+CHECKS['C03'] = dict(
+   category='other',
+   text='Mixed. Decided by complete enumeration of finite domains on the real functions (exhaustive-domain obligations): for all '
+        '1,112,064 Unicode scalar values coarse_classify_char and fine_class return a class whose expression matches the character, '
+        'escape(c) matches exactly c, the portable/grep Digit class contains what the internal class does; escaped_bracket denotes '
+        'exactly its set for every set of 2..4 (quick) / 2..5 (thorough, the complete default call-site domain) punctuation characters. '
+        'Bounded (labelled): extract / pdextract under the runtime contract "every kept example is matched by a returned expression" over '
+        'word multisets, random strings over a 28-character class/metacharacter alphabet, long inputs, option sets, 6 Size settings forcing '
+        'the sampled path, seeds.',
+   note=_REX_NOTE, technique='exhaustive-domain contract checking of the character-class functions + bounded runtime contracts on extract()',
+   design_ref='DESIGN.md 5 C03')
+CHECKS['C13'] = dict(
+   category='other',
+   text='Mixed. Exhaustive-domain: escape(c) matches exactly c for every Unicode scalar value; escaped_bracket compiles and denotes its set '
+        'for every punctuation set of size 2..4/5. Bounded (labelled): every returned expression compiles, is ^...$ anchored, matches an '
+        'example, no duplicates, at most one per distinct example, none for empty input, tagged and untagged expressions match the same '
+        'examples (same count without sampling), incl. max_patterns / min_strings_per_pattern settings and inputs with > 99 fragments.',
+   note=_REX_NOTE, technique='exhaustive-domain contract checking + bounded runtime contracts on extract()',
+   design_ref='DESIGN.md 5 C13')
+CHECKS['C14'] = dict(
+   category='exploration',
+   text='Bounded only (labelled): a two-run (hyper)property over the whole pipeline that no per-function contract here carries. Runtime '
+        'contracts: same expressions for every permutation (<= 4 examples: all 24), list vs frequency dict, repeated example, repeated '
+        'call; with a seed: reproducible, independent of the global PRNG, random.getstate() unchanged - over word multisets x options x '
+        'Size settings that force sampling x seeds.',
+   note=_REX_NOTE + ' The PRNG typestate proof planned in DESIGN.md is not built.',
+   technique='bounded runtime contracts (relational checks over permutations, input forms and PRNG state)',
+   design_ref='DESIGN.md 5 C14')
+CHECKS['C18'] = dict(
+   category='exploration',
+   text='Bounded only (labelled): coverage() equals an independent count of matching examples (with and without repeats), n_examples equals '
+        'the number supplied, incremental coverage is non-increasing, sums to the total and credits each example to exactly one expression '
+        '(replayed greedily) - over the C03 drivers with repeats.',
+   note=_REX_NOTE, technique='bounded runtime contracts against an independent count',
+   design_ref='DESIGN.md 5 C18')
+
 NA_REASON = 'check under construction in this session (see DESIGN.md 8, build order)'
 
 def main():
